@@ -213,6 +213,38 @@ func main() {
 	h.Tick(-1)
 	select {}
 }`},
+	{Name: "deferred-cleanup", Class: "defer", Full: true, Src: `package main
+import "h"
+func cleanup() { h.Tick(-1); h.Tick(-2); h.Tick(-3) }
+func restart() { go leaf(9) }
+func leaf(id int) {
+	for i := 0; ; i++ {
+		h.Tick(id)
+	}
+}
+func worker(id int) {
+	defer cleanup()
+	defer restart()
+	for i := 0; ; i++ {
+		h.Tick(id)
+	}
+}
+func main() {
+	go worker(1)
+	worker(0)
+}`},
+	{Name: "host-callback", Class: "callback", Full: true, Src: `package main
+import "h"
+func visit(i int) { h.Tick(i); h.Tick(i + 100) }
+type T struct{ n int }
+func (t *T) Visit(i int) { t.n += i; h.Tick(t.n) }
+func main() {
+	t := &T{}
+	for {
+		h.Each(3, visit)
+		h.Each(2, t.Visit)
+	}
+}`},
 	{Name: "root-level-loop", Class: "root", Full: false, Pre: `import "h"`, Src: `n := 0
 for {
 	n++
